@@ -183,6 +183,14 @@ pub(in crate::sql) fn distinct(
             }
         }
     }
+    #[cfg(feature = "verif")]
+    crate::sql::verif_hooks::trace_event(serde_json::json!({
+        "event": "distinct",
+        "input": pipeline,
+        "output": res,
+        "select_columns": ctx.anchor.determine_select_columns(&pipeline),
+        "supports_distinct_on": ctx.dialect.supports_distinct_on(),
+    }));
     Ok(res)
 }
 
